@@ -36,6 +36,8 @@ fn main() {
         "C02" => props::c02::run(tier),
         "C03" => props::c03::run(tier),
         "C05" => props::c05::run(tier),
+        "C09" => props::c09::run(tier),
+        "C11" => props::c11::run(tier),
         other => {
             eprintln!("unknown check {other}");
             std::process::exit(2);
